@@ -14,6 +14,7 @@ case "$cmd" in
   make)
     mkdir -p /tmp/u
     [ -d "$base/repo" ] || git -C /repo worktree add -q --detach "$base/repo" HEAD || exit 2
+    git -C "$base/repo" checkout -q -- . ; git -C "$base/repo" checkout -q --detach "$(git -C /repo rev-parse HEAD)" || exit 2
     mkdir -p "$base/verif"
     rsync -a --delete --exclude .git --exclude work --exclude replays --exclude agents /verif/ "$base/verif/"
     mkdir -p "$base/verif/work"
